@@ -111,6 +111,8 @@ def gen_case(seed, tier):
         "alg": alg,
         "secret": bytes(rng.randrange(256) for _ in range(keylen)).hex(),
         "keyname": rng.choice(["key.example.", "Key.Example.", "K1.", "tsig-key.some.zone.example.", "UPPER.CASE.KEY."]),
+        "alg_spelling": rng.choice(["lower", "lower", "upper", "mixed"]),
+        "key_spelling": rng.choice(["same", "same", "upper", "lower"]),
         "fudge": rng.choice([0, 1, 300, 300, 65535]),
         "time": rng.choice([1_600_000_000, 2**31 + 5, 2**32 + 77, 2**40 + 3, 100000]),
         "qid": rng.randrange(65536),
@@ -134,8 +136,22 @@ def gen_case(seed, tier):
 
 
 def _key(case, real=True):
+    """The real side's key object; its names may be spelled in another case than what the
+    peer puts on the wire (names are case-insensitive and digested in canonical form)."""
     dns = _d
-    return dns.tsig.Key(case["keyname"], bytes.fromhex(case["secret"]), case["alg"])
+    alg = case["alg"]
+    sp = case.get("alg_spelling", "lower")
+    if sp == "upper":
+        alg = alg.upper()
+    elif sp == "mixed":
+        alg = "".join(c.upper() if i % 2 else c for i, c in enumerate(alg))
+    kn = case["keyname"]
+    ks = case.get("key_spelling", "same")
+    if ks == "upper":
+        kn = kn.upper()
+    elif ks == "lower":
+        kn = kn.lower()
+    return dns.tsig.Key(kn, bytes.fromhex(case["secret"]), alg)
 
 
 def _query(case):
@@ -815,7 +831,7 @@ def run_case(case, keep_log=False):
 
 
 def shrink(case):
-    for key, simple in (("nrr", 0), ("edns", False), ("other", ""), ("orig_id_differs", False), ("qname", "www.example."), ("keyname", "key.example."), ("alg", "hmac-sha256."), ("nenv", 2), ("unsigned_mask", 0), ("fudge", 300), ("time", 1_600_000_000)):
+    for key, simple in (("alg_spelling", "lower"), ("key_spelling", "same"), ("nrr", 0), ("edns", False), ("other", ""), ("orig_id_differs", False), ("qname", "www.example."), ("keyname", "key.example."), ("alg", "hmac-sha256."), ("nenv", 2), ("unsigned_mask", 0), ("fudge", 300), ("time", 1_600_000_000)):
         if case.get(key) != simple:
             c = copy.deepcopy(case)
             c[key] = simple
